@@ -16,7 +16,7 @@ func metadataPeers(t *Torrent, count int) []*peer.Peer {
 	}
 	pn := t.rand.Perm(len(t.peers))
 	var peers []*peer.Peer
-	for n := range pn {
+	for _, n := range pn {
 		if t.peers[n].CanMetadata() {
 			peers = append(peers, t.peers[n])
 			if len(peers) >= count {
